@@ -37,7 +37,7 @@ LINE_PATTERNS = [
 
 
 def generate(tier, seed):
-    n = 300 if tier == "quick" else 30000
+    n = 800 if tier == "quick" else 30000
     return [{"k": k} for k in range(n)]
 
 
